@@ -165,6 +165,72 @@ def opt_partitions(mod, tier):
     return chosen
 
 
+ALT_PY = "/usr/bin/python3.11"
+
+
+def alt_python():
+    """another CPython release than the one the checks run on (the library declares python_requires ~= 3.7): code that feature-detects
+    the standard library takes its fallback path there.  None when the image has no such interpreter."""
+    if not os.path.exists(ALT_PY):
+        return None
+    try:
+        import subprocess
+        v = subprocess.run([ALT_PY, "-c", "import sys; print(sys.version_info[:2])"], capture_output=True, timeout=30).stdout.decode().strip()
+    except Exception:
+        return None
+    return ALT_PY if v and v != str(tuple(sys.version_info[:2])) else None
+
+
+def alt_partitions(mod, tier):
+    """partitions run a third time under the other interpreter: the module's choice (ALT_PARTITIONS(tier)), none (NO_ALT_PASS), or by
+    default every partition but the thread-schedule enumerations' share chosen by OPT_PARTITIONS, if the module defines that"""
+    if getattr(mod, "NO_ALT_PASS", False) or alt_python() is None:
+        return []
+    if hasattr(mod, "ALT_PARTITIONS"):
+        return mod.ALT_PARTITIONS(tier)
+    if hasattr(mod, "OPT_PARTITIONS"):
+        return mod.OPT_PARTITIONS(tier)
+    return mod.partitions(tier)
+
+
+def _alt_worker(args):
+    """run one partition under the other interpreter; the result comes back pickled on stdout"""
+    import pickle
+    import subprocess
+    modname, part, tier, seed = args
+    env = dict(os.environ)
+    env["PYTHONPATH"] = ROOT
+    env["PYTHONHASHSEED"] = "0"
+    tag = "python-" + os.path.basename(ALT_PY).replace("python", "")
+    try:
+        p = subprocess.run([ALT_PY, "-W", "error", "-c", "from vf.runner import alt_child; alt_child()", modname, tier, str(seed), os.environ["VF_REPO"]],
+                           input=jdump(part).encode(), capture_output=True, env=env, cwd=ROOT, timeout=3600)
+        if p.returncode != 0:
+            return ("err", "partition %r under %s: exit %d: %s" % (part, ALT_PY, p.returncode, p.stderr.decode()[-800:]))
+        st, acc = pickle.loads(p.stdout)
+        if st != "ok":
+            return (st, acc)
+        acc.viol = {tag + "/" + k: [c, "[under %s] " % ALT_PY + w, [["-alt", x] for x in cs]] for k, (c, w, cs) in acc.viol.items()}
+        acc.extra = {"other_interpreter_partitions": 1, "other_interpreter_evaluations": acc.evaluations}
+        acc.nontrivial = {hash(("-alt", h)) for h in acc.nontrivial}
+        acc.samples = []
+        return ("ok", acc)
+    except BaseException:
+        return ("err", "partition %r under %s: %s" % (part, ALT_PY, traceback.format_exc()))
+
+
+def alt_child():
+    import pickle
+    modname, tier, seed, repo = sys.argv[1:5]
+    part = json.loads(sys.stdin.read())
+    setup_repo(repo)
+    out = sys.stdout.buffer
+    sys.stdout = sys.stderr
+    res = _worker((modname, part, tier, int(seed)))
+    out.write(pickle.dumps(res, protocol=4))
+    out.flush()
+
+
 def _opt_worker(args):
     """run one partition in `python -O`; the result comes back pickled on stdout"""
     import pickle
@@ -257,6 +323,19 @@ def main(argv=None):
                     sys.stderr.write(p.stderr.decode()[-2000:])
                     return 2
                 viols = [("python-O/" + k, "[under python -OO -bb -W error] " + w) for k, w in json.loads(p.stdout.decode().strip().splitlines()[-1])]
+            elif isinstance(case, list) and len(case) == 2 and case[0] == "-alt":
+                import subprocess
+                env = dict(os.environ)
+                env["PYTHONPATH"] = ROOT
+                env["PYTHONHASHSEED"] = "0"
+                p = subprocess.run([ALT_PY, "-W", "error", "-c",
+                                    "import sys, json; from vf import runner; runner.setup_repo(sys.argv[2]); import importlib; "
+                                    "m = importlib.import_module(sys.argv[1]); print(runner.jdump(m.replay(json.loads(sys.stdin.read()))))",
+                                    modname, os.environ["VF_REPO"]], input=jdump(case[1]).encode(), capture_output=True, env=env, cwd=ROOT)
+                if p.returncode != 0:
+                    sys.stderr.write(p.stderr.decode()[-2000:])
+                    return 2
+                viols = [("python-3.11/" + k, "[under %s] " % ALT_PY + w) for k, w in json.loads(p.stdout.decode().strip().splitlines()[-1])]
             else:
                 viols = mod.replay(case)
         except Exception:
@@ -341,6 +420,18 @@ def _run(a, mod, modname, pid, seed, t0):
                 errors.append(val)
         tp.close()
         tp.join()
+    # third pass: the same partitions (or the module's choice of them) under another CPython release
+    ajobs = [(modname, p, a.tier, seed) for p in alt_partitions(mod, a.tier)]
+    if ajobs:
+        from multiprocessing.pool import ThreadPool
+        tp = ThreadPool(max(1, min(a.jobs, len(ajobs))))
+        for st, val in tp.imap_unordered(_alt_worker, ajobs):
+            if st == "ok":
+                total.merge(val)
+            else:
+                errors.append(val)
+        tp.close()
+        tp.join()
     wall = time.time() - t0
     if errors:
         for e in errors[:5]:
@@ -353,7 +444,9 @@ def _run(a, mod, modname, pid, seed, t0):
     n_viol = 0
     def base_key(key):
         # the second pass (child interpreter with -O) re-runs the same inputs: the same failing input there is the same finding
-        return key[len("python-O/"):] if key.startswith("python-O/") else key
+        if key.startswith("python-") and "/" in key:
+            return key.split("/", 1)[1]
+        return key
 
     for key, (count, what, cases) in sorted(total.viol.items()):
         n_viol += count
